@@ -14,9 +14,16 @@ package sys
 import "sync"
 
 // VH_C11_pair: clients A and B on locations locA / locB.
-func VH_C11_pair(linear, opA, opB int) {
+func VH_C11_pair(linear, opA, opB int) { vhC11Pair(linear, opA, opB, 2) }
+
+// VH_C11_pair_ttl: the same under cache TTL never (0) or finite (1): every request then
+// works on what the System's storage holds, so a location bound to another storage
+// instance shows.
+func VH_C11_pair_ttl(linear, opA, opB, ttl int) { vhC11Pair(linear, opA, opB, ttl) }
+
+func vhC11Pair(linear, opA, opB, ttl int) {
 	vsetNow(vhBase)
-	sys, ctx := vhSystem("A", 2, false, linear == 1)
+	sys, ctx := vhSystem("A", ttl, false, linear == 1)
 	var wg sync.WaitGroup
 	wg.Add(2)
 	var ra1, ra2, rb1, rb2 vhResp
@@ -38,7 +45,7 @@ func VH_C11_pair(linear, opA, opB int) {
 	}()
 	wg.Wait()
 	// each client sees what it would have seen alone
-	solo, sctx := vhSystem("S", 2, false, linear == 1)
+	solo, sctx := vhSystem("S", ttl, false, linear == 1)
 	sa1 := vhRequest(solo, sctx, 0, "locA")
 	var sa2, sb2 vhResp
 	if opA != 9 {
@@ -62,5 +69,11 @@ func VH_C11_pair(linear, opA, opB int) {
 	fb := vhRequest(sys, ctx, 1, "locB")
 	fsb := vhRequest(solo, sctx, 1, "locB")
 	vassert(fb.err == fsb.err && (fb.err || vdeepEq(fb.s, fsb.s)), "final-state-as-sequential")
+	// and so does what the System's storage holds for each location
+	for _, name := range []string{"locA", "locB"} {
+		got, err1 := sys.storage.Load(ctx, name)
+		want, err2 := solo.storage.Load(sctx, name)
+		vassert(err1 == nil && err2 == nil && len(got) == len(want), "stored-state-as-sequential")
+	}
 	vreach("end")
 }
